@@ -514,6 +514,33 @@ fn c10_matrix(sim: &mut Sim, rng: &mut Rng, idx: usize, out: &mut Vec<Violation>
         out.extend(vs);
         absorb(sim, fresh, idx, out);
     }
+    // the matrix after the hub's owner has replaced collaborators (dispatcher, registry, index
+    // updater, airdrop registry): the replaced principals lose their privileges at once, in the
+    // hub and in every contract that asks the hub who its collaborators are
+    {
+        let mut c = child_of(sim);
+        c.apply(&tx_step(Op::UpdateIndex { sender: UPDATER.into() }));
+        let owner = c.obs.hub.as_ref().map(|h| h.config.owner.clone()).unwrap_or_default();
+        let mut m = serde_json::Map::new();
+        for (field, addr) in [("rewards_dispatcher_contract", "dispatcher2"), ("validators_registry_contract", "registry2"), ("update_reward_index_addr", "updater2"), ("airdrop_registry_contract", "airdrop2")] {
+            if rng.chance(1, 2) {
+                m.insert(field.to_string(), json!(addr));
+            }
+        }
+        if !m.is_empty() {
+            let o = c.apply(&tx_step(raw("hub_rotate_collaborators", &owner, HUB, &json!({ "update_config": Value::Object(m) }), vec![])));
+            if o.map(|o| o.ok).unwrap_or(false) {
+                c.stats.probe("c10_matrix_after_collaborator_rotation");
+                let mut vs = vec![];
+                c10_matrix_on(&mut c, idx, &mut vs);
+                for v in vs.iter_mut() {
+                    v.msg = format!("[after the hub owner replaced collaborators] {}", v.msg);
+                }
+                out.extend(vs);
+            }
+        }
+        absorb(sim, c, idx, out);
+    }
     let variant = rng.below(4);
     let mut c = child_of(sim);
     for contract in [HUB, DISPATCHER, REWARD, REGISTRY] {
